@@ -308,9 +308,11 @@ def report(prop, H, a, scens, results, seed, wall):
         for x in r.get("assumptions") or []:
             if x not in assumptions:
                 assumptions.append(x)
-        if len(samples) < 8:
+        if len(samples) < 10:
             for smp in (r.get("samples") or [])[:2]:
                 samples.append(dict(scenario=r["name"], **smp))
+            for sk in (r.get("skeletons") or [])[:1]:
+                samples.append(dict(scenario=r["name"], explored_path_skeleton=sk[:300]))
         c = r.get("conformance") or {}
         conf["tried"] += c.get("tried", 0)
         conf["agreed"] += c.get("agreed", 0)
